@@ -15,7 +15,7 @@ use crate::rng::{hash_str, Rng};
 use candid::types::internal::TypeContainer;
 use candid::types::{Type, TypeEnv};
 use candid_parser::syntax::{pretty_print, IDLMergedProg};
-use candid_parser::utils::{service_equal, CandidSource};
+use candid_parser::utils::{get_metadata, instantiate_candid, merge_init_args, service_equal, CandidSource};
 use serde_json::json;
 
 fn clip(s: &str) -> String {
@@ -100,6 +100,164 @@ fn judge_printed(pm: &ProgModel, original: &str, printed: &str, has_actor: bool,
     }
 }
 
+/// Compare a service (and, when given, init argument types) as candid holds them with the model of the program.
+fn diff_service(pm: &ProgModel, env: &TypeEnv, init: Option<&[Type]>, serv: &Type) -> Option<String> {
+    let (minit, mserv) = pm.actor.as_ref()?;
+    let mut c = FromCandid::new(env);
+    let cserv = match c.ty(serv) {
+        Ok(t) => t,
+        Err(e) => return Some(format!("service-unconvertible|{e}")),
+    };
+    let mut cinit = Vec::new();
+    for t in init.unwrap_or(&[]) {
+        match c.ty(t) {
+            Ok(rt) => cinit.push(rt),
+            Err(e) => return Some(format!("init-unconvertible|{e}")),
+        }
+    }
+    let mut all: REnv = pm.env.clone();
+    let off = all.append(&c.out);
+    if !requal(&all, mserv, &cserv.shift_refs(off)) {
+        return Some(format!(
+            "service-differs|model {} vs candid {}",
+            crate::mon::common::shape(&pm.env, mserv, 4),
+            crate::mon::common::shape(&c.out, &cserv, 4)
+        ));
+    }
+    if init.is_some() {
+        if cinit.len() != minit.len() {
+            return Some(format!("init-arity|model {} vs candid {}", minit.len(), cinit.len()));
+        }
+        for (k, (a, b)) in minit.iter().zip(cinit.iter()).enumerate() {
+            if !requal(&all, a, &b.shift_refs(off)) {
+                return Some(format!("init-arg-differs|#{k}: model {} vs candid {}", crate::mon::common::shape(&pm.env, a, 4), crate::mon::common::shape(&c.out, b, 4)));
+            }
+        }
+    }
+    None
+}
+
+/// (c) the helpers built on the printers: `get_metadata` (service with only the definitions it reaches, init arguments
+/// dropped), `instantiate_candid` (init arguments and service of a printed interface) and `merge_init_args`.
+fn printer_clients(ctx: &mut Ctx, rng: &mut Rng, pm: &ProgModel, env: &TypeEnv, actor: &Option<Type>, printed: &str, hint: &str, input: &dyn Fn(&str) -> serde_json::Value) {
+    if actor.is_none() || pm.actor.is_none() {
+        return;
+    }
+    let quiet = |c: &str| c.starts_with("name-true/false") || c.starts_with("NUL-");
+    // get_metadata
+    match catch(|| get_metadata(env, actor)) {
+        Err(pn) => ctx.violation(&format!("get_metadata|panic|{}", stable_location(&pn.location)), &pn.message, input("")),
+        Ok(None) => ctx.violation(&format!("get_metadata|none|{hint}"), "get_metadata returned None for a checked program with a main service", input("")),
+        Ok(Some(meta)) => match parse_check(&meta) {
+            Err(e) => {
+                let c = reparse_class(&e);
+                if !quiet(&c) {
+                    ctx.violation(
+                        &format!("get_metadata|reparse-fails|{c}|{hint}"),
+                        &format!("metadata text is rejected at stage {}: {}", e.stage(), e.message().lines().next().unwrap_or("")),
+                        input(&meta),
+                    );
+                }
+            }
+            Ok((env3, Some(a3), _)) => {
+                let (init3, serv3) = actor_parts(&a3);
+                if init3.is_some() {
+                    ctx.violation(&format!("get_metadata|keeps-init-args|{hint}"), "metadata service still is a constructor", input(&meta));
+                } else if let Some(d) = diff_service(pm, &env3, None, &serv3) {
+                    let kind = d.split('|').next().unwrap_or("differs").to_string();
+                    ctx.violation(&format!("get_metadata|{kind}|{hint}"), &format!("service of the metadata text differs from the source: {d}"), input(&meta));
+                } else if env3.0.keys().any(|k| !env.0.contains_key(k)) {
+                    ctx.violation(&format!("get_metadata|invents-definition|{hint}"), "metadata text defines a name the program does not have", input(&meta));
+                } else {
+                    ctx.count("agree:get_metadata");
+                    if env3.0.len() < env.0.len() {
+                        ctx.count("cover:get_metadata-filters-definitions");
+                    }
+                }
+            }
+            Ok(_) => ctx.violation(&format!("get_metadata|lost-actor|{hint}"), "metadata text has no service", input(&meta)),
+        },
+    }
+    // instantiate_candid on the printed interface
+    match catch(|| instantiate_candid(CandidSource::Text(printed))) {
+        Err(pn) => ctx.violation(&format!("instantiate_candid|panic|{}", stable_location(&pn.location)), &pn.message, input(printed)),
+        Ok(Err(e)) => {
+            let m = e.to_string();
+            if !(m.contains("Boolean(") || m.contains("Unknown escape character 0")) {
+                ctx.violation(&format!("instantiate_candid|error|{}|{hint}", crate::mon::common::err_class(&e)), &m, input(printed));
+            }
+        }
+        Ok(Ok((args, (env4, serv4)))) => {
+            if matches!(serv4.as_ref(), candid::types::TypeInner::Class(..)) {
+                ctx.violation(&format!("instantiate_candid|service-is-constructor|{hint}"), "the service part still carries init arguments", input(printed));
+            } else if let Some(d) = diff_service(pm, &env4, Some(&args), &serv4) {
+                let kind = d.split('|').next().unwrap_or("differs").to_string();
+                ctx.violation(&format!("instantiate_candid|{kind}|{hint}"), &format!("instantiate_candid on the printed interface differs from the source: {d}"), input(printed));
+            } else {
+                ctx.count("agree:instantiate_candid");
+                if !args.is_empty() {
+                    ctx.count("cover:instantiate_candid-with-init-args");
+                }
+            }
+        }
+    }
+    // merge_init_args: init arguments given separately, as definitions of the interface or inline types
+    let names: Vec<&String> = pm.def_index.keys().filter(|n| n.chars().all(|c| c.is_ascii_alphanumeric() || c == '_') && n.chars().next().map_or(false, |c| c.is_ascii_alphabetic())).collect();
+    let kws = ["type", "service", "func", "record", "variant", "vec", "opt", "import", "principal", "blob", "query", "oneway", "composite_query", "nat", "int", "text", "bool", "null", "reserved", "empty", "nat8", "nat16", "nat32", "nat64", "int8", "int16", "int32", "int64", "float32", "float64"];
+    let mut want: Vec<RType> = Vec::new();
+    let mut parts: Vec<String> = Vec::new();
+    for _ in 0..rng.usize(4) {
+        if !names.is_empty() && rng.chance(2, 3) {
+            let n = names[rng.usize(names.len())];
+            if kws.contains(&n.as_str()) {
+                continue;
+            }
+            let idx = pm.def_index[n];
+            want.push(RType::Ref(idx));
+            parts.push(if rng.bool() { n.to_string() } else { format!("opt {n}") });
+            if parts.last().unwrap().starts_with("opt ") {
+                *want.last_mut().unwrap() = RType::opt(RType::Ref(idx));
+            }
+        } else {
+            want.push(RType::vec(RType::Nat8));
+            parts.push("blob".into());
+        }
+    }
+    let init_text = format!("({})", parts.join(", "));
+    match catch(|| merge_init_args(printed, &init_text)) {
+        Err(pn) => ctx.violation(&format!("merge_init_args|panic|{}", stable_location(&pn.location)), &pn.message, input(printed)),
+        Ok(Err(e)) => {
+            let m = e.to_string();
+            if !(m.contains("Boolean(") || m.contains("Unknown escape character 0")) {
+                ctx.violation(&format!("merge_init_args|error|{}|{hint}", crate::mon::common::err_class(&e)), &format!("init {init_text}: {m}"), input(printed));
+            }
+        }
+        Ok(Ok((env5, t5))) => {
+            let (init5, serv5) = actor_parts(&t5);
+            let mut pm2 = pm.clone();
+            if !pm.is_class {
+                // a plain service takes the given init arguments; a constructor is returned as it is
+                pm2.actor = pm.actor.as_ref().map(|(_, s)| (want.clone(), s.clone()));
+            }
+            match init5 {
+                None => ctx.violation(&format!("merge_init_args|not-a-constructor|{hint}"), &format!("init {init_text}: result is not a service constructor"), input(printed)),
+                Some(i5) => match diff_service(&pm2, &env5, Some(&i5), &serv5) {
+                    Some(d) => {
+                        let kind = d.split('|').next().unwrap_or("differs").to_string();
+                        ctx.violation(&format!("merge_init_args|{kind}|{hint}"), &format!("init {init_text}: {d}"), input(printed));
+                    }
+                    None => {
+                        ctx.count("agree:merge_init_args");
+                        if !pm.is_class && !want.is_empty() {
+                            ctx.count("cover:merge_init_args-adds-arguments");
+                        }
+                    }
+                },
+            }
+        }
+    }
+}
+
 fn sig_of(printer: &str, sig: &str, hint: &str) -> String {
     if sig.starts_with("reparse-fails|name-true/false") || sig.starts_with("reparse-fails|NUL-") {
         format!("{printer}|{sig}")
@@ -170,7 +328,10 @@ pub fn one_program(ctx: &mut Ctx, rng: &mut Rng, cfg: &ProgCfg) {
             }
             match judge_printed(&pm, &text, &t1, actor.is_some(), check_equal) {
                 Some((sig, what)) => ctx.violation(&sig_of("compile", &sig, hint), &what, input(&t1)),
-                None => ctx.count("agree:compile"),
+                None => {
+                    ctx.count("agree:compile");
+                    printer_clients(ctx, rng, &pm, &env, &actor, &t1, hint, &input);
+                }
             }
         }
     }
@@ -367,6 +528,8 @@ struct Export {
     add: fn(&mut TypeContainer) -> Type,
     ty: fn() -> Type,
     expected: fn() -> (REnv, RType),
+    /// candid_parser::utils::check_rust_type::<T>(init-args text)
+    check: fn(&str) -> Result<(), String>,
 }
 
 fn point() -> RType {
@@ -395,6 +558,7 @@ macro_rules! export {
             add: |c| c.add::<$t>(),
             ty: || <$t as candid::CandidType>::ty(),
             expected: $expected,
+            check: |s| candid_parser::utils::check_rust_type::<$t>(s).map_err(|e| e.to_string()),
         }
     };
 }
@@ -715,6 +879,30 @@ fn one_export(ctx: &mut Ctx, ex: &Export, with: &[&Export]) {
                 }
             }
             Ok(_) => ctx.violation("export|service-over-roots-lost-actor", "the printed program has no service", input2),
+        }
+    }
+    // check_rust_type: the printed environment plus a root, in the init-args format, is the Candid type of that Rust type
+    // (structural equality after merging the two environments) and of no Rust type with another meaning
+    for (e, root) in &roots {
+        let text = format!("{printed}\n({root})");
+        let (xenv, xt) = (e.expected)();
+        for (o, _) in &roots {
+            let (oenv, ot) = (o.expected)();
+            let same = eq2(&xenv, &xt, &oenv, &ot);
+            match catch(|| (o.check)(&text)) {
+                Err(p) => ctx.violation(&format!("export|check_rust_type-panic|{}", stable_location(&p.location)), &p.message, json!({"rust_type": o.name, "candid": clip(&text)})),
+                Ok(r) => {
+                    if r.is_ok() != same && !(text.contains("\"true\"") || text.contains("true :") || text.contains("\\0")) {
+                        ctx.violation(
+                            &format!("export|check_rust_type-{}|{}", if same { "rejects-own-type" } else { "accepts-other-type" }, o.name),
+                            &format!("check_rust_type::<{}> on the exported type of {}: {:?}", o.name, e.name, r),
+                            json!({"rust_type": o.name, "candid": clip(&text)}),
+                        );
+                    } else {
+                        ctx.count(if same { "agree:check_rust_type-accepts" } else { "agree:check_rust_type-rejects" });
+                    }
+                }
+            }
         }
     }
     ctx.count(&format!("cover:export:{}", ex.name));
